@@ -107,7 +107,7 @@ def run(chk, replay=None):
                                   {"cmd": f"strace -f -e inject={sc}:{what} wild -o out a.o"})
         # resource-limit faults: RLIMIT_FSIZE (SIGXFSZ ignored) makes write/ftruncate fail or come up short
         import resource, signal
-        open(f"{d}/big.s", "w").write(".globl _start\n.text\n_start: mov $60,%eax\n xor %edi,%edi\n syscall\n.data\nblob: .fill 65536,1,0x5a\n")
+        open(f"{d}/big.s", "w").write(".globl _start\n.text\n_start: lea blob(%rip),%rsi\n mov $60,%eax\n xor %edi,%edi\n syscall\n.data\nblob: .fill 65536,1,0x5a\n")
         sh(f"as -o {d}/big.o {d}/big.s", check=True)
         rcb, _ = sh(f"{wild} -o {d}/bigref {d}/big.o", timeout=60)
         bigref = open(f"{d}/bigref", "rb").read() if rcb == 0 else None
